@@ -139,6 +139,11 @@ class Job:
         Returns 'unsat' | 'sat' | 'unknown' | 'trivial'."""
         import z3
         self.n_obl += 1
+        if len(self.cex) >= 12:
+            # the job already has a dozen counterexamples: its verdict cannot become a pass, so the remaining obligations
+            # are not worth solver time (they stay counted as not discharged)
+            self.n_skipped = getattr(self, 'n_skipped', 0) + 1
+            return 'skipped'
         neg = z3.Not(claim)
         if presimplify:
             sneg = z3.simplify(neg)
@@ -208,6 +213,8 @@ class Job:
         self.n_obl += 1
         if ok:
             self.n_discharged += 1
+        else:
+            self.unconfirmed = getattr(self, 'unconfirmed', []) + [name]
         return ok
 
     def violation(self, name, info):
@@ -239,6 +246,9 @@ class Job:
             self.error('path budget exhausted (%d runs)' % ex.runs)
 
     def result(self):
+        if getattr(self, 'unconfirmed', None) and not self.cex and not self.errors:
+            # a structural fact did not hold and the harness recorded no counterexample for it: never a silent pass
+            self.errors.append('%s: fact not confirmed and no counterexample recorded: %s' % (self.name, '; '.join(self.unconfirmed[:3])))
         return {k: getattr(self, k) for k in
                 ('name', 'config', 'n_obl', 'n_discharged', 'n_nontrivial', 'n_inconclusive',
                  'n_optional_inconclusive', 'twins_ok', 'twins_bad', 'cex', 'errors', 'samples',
@@ -275,18 +285,51 @@ def model_to_dict(m):
 # --------------------------------------------------------------------------
 # job execution
 # --------------------------------------------------------------------------
+class JobTimeout(BaseException):
+    pass
+
+
+_TIMED_OUT = mp.Value('i', 0)      # shared with the forked pool workers
+
+
+def _job_wall_limit():
+    # a job that does not finish is an inconclusive result (exit 2), never a hang: the wall-clock limit is generous for the
+    # unchanged tree (largest quick job ~100 s, largest thorough job ~15 min).  Once one job of a run has hit the limit the
+    # run cannot pass any more: the remaining jobs only get a short budget (they may still contribute counterexamples).
+    if _TIMED_OUT.value:
+        return 45
+    return int(os.environ.get('VERIF_JOB_WALL_S', '3600' if os.environ.get('VERIF_TIER') == 'thorough' else '300'))
+
+
 def _worker(args):
     modname, jobname, kwargs, timeout_ms = args
     import importlib
+    import signal
     t0 = time.time()
+
+    limit = _job_wall_limit()
+
+    def _alarm(signum, frame):
+        _TIMED_OUT.value = 1
+        raise JobTimeout('job exceeded the wall-clock limit of %d s' % limit)
+    try:
+        signal.signal(signal.SIGALRM, _alarm)
+        signal.alarm(limit)
+    except (ValueError, OSError):
+        pass
     try:
         import z3
         z3.set_param('verbose', 0)
         mod = importlib.import_module(modname)
         job = Job(jobname, kwargs, timeout_ms)
         mod.run_job(job, **kwargs)
+        signal.alarm(0)
         r = job.result()
     except BaseException as e:  # noqa
+        try:
+            signal.alarm(0)
+        except Exception:  # noqa
+            pass
         r = Job(jobname, kwargs).result()
         r['errors'].append('%s: machinery exception %s: %s\n%s' % (
             jobname, type(e).__name__, e, traceback.format_exc()[-1500:]))
